@@ -7,6 +7,7 @@
 From RichModel Require Import Prelude Progress SpecProgress.
 From RichGen Require Import ProgressLock.
 From RichProofs Require Import ProgressP ProgressConcP ProgressConcP2 ProgressSerP.
+From RichProofs.bridge Require BridgeProgress.   (* tie 1 (T2): Task.remaining/elapsed/finished/percentage/time_remaining regenerated from rich/progress.py *)
 From Coq Require Import QArith.
 
 (* (1) completed = last explicitly set value + sum of the advances since, for every task, after
